@@ -14,8 +14,9 @@ def sh(cmd, **kw):
 
 def main():
     want = sys.argv[1:]
-    if sh(["git", "-C", REPO, "diff", "--quiet"]).returncode != 0:
-        print("HARNESS-ERROR: /repo has uncommitted changes"); return 2
+    is_git = os.path.isdir(os.path.join(REPO, ".git")) or os.path.isfile(os.path.join(REPO, ".git"))
+    if is_git and sh(["git", "-C", REPO, "diff", "--quiet"]).returncode != 0:
+        print("HARNESS-ERROR: the repository under test has uncommitted changes"); return 2
     bad = 0
     rows = []
     for d in sorted(glob.glob(os.path.join(VERIF, "seeded", "*"))):
@@ -27,7 +28,7 @@ def main():
         checks = ["C03", "C04", "C12", "C14", "C15", "C16"] if neutral else meta.get("run_checks") or [meta["breaks_property"]]
         if meta.get("needs_engine") == "miri" and os.environ.get("VERIF_NO_MIRI"):
             rows.append((mid, "-", "skipped (needs the Miri engine)")); continue
-        if sh(["git", "-C", REPO, "apply", os.path.join(d, "patch.diff")]).returncode != 0:
+        if sh(["git", "apply", os.path.join(d, "patch.diff")], cwd=REPO).returncode != 0:
             rows.append((mid, "-", "PATCH DOES NOT APPLY")); bad += 1; continue
         try:
             for c in checks:
@@ -44,10 +45,20 @@ def main():
                 else:
                     verdict = "caught" if fired else "MISSED"
                     bad += not fired
+                    if fired:
+                        # the replay file must reproduce while the change is applied
+                        import re
+                        m = re.search(r"^VIOLATION property=%s replay=(\S+)" % c, p.stdout, re.M)
+                        rp = sh([os.path.join(VERIF, "check"), "replay", m.group(1)], env=env) if m else None
+                        if rp is None or rp.returncode != 1 or "REPRODUCED" not in rp.stdout:
+                            verdict += " BUT REPLAY DID NOT REPRODUCE"
+                            bad += 1
+                        else:
+                            verdict += ", replay reproduces"
                 rows.append((mid, c, verdict))
                 print(f"{mid:36} {c}  {verdict}", flush=True)
         finally:
-            sh(["git", "-C", REPO, "checkout", "--", "."])
+            sh(["git", "apply", "-R", os.path.join(d, "patch.diff")], cwd=REPO)
     for f in glob.glob(os.path.join(VERIF, "replays", "*")):
         os.remove(f)
     print(f"sensitivity: {len(rows)} (change, check) pairs, {bad} not as expected")
